@@ -9,6 +9,8 @@ def model_of(ns, fn):
     if ns in ('Fq2', 'Fq4', 'Fq12'):
         if fn == 'frobenius_map':
             return None
+        if fn == 'to_slice':
+            return None          # stated separately (Outcome-valued translation vs total model function)
         if ns == 'Fq12' and fn == 'pow':
             return '@Sm9.Fq12.pow_u128'
         return f'@Sm9.{ns}.{fn}'
@@ -26,8 +28,20 @@ def model_of(ns, fn):
         F = 'Fq' if ns == 'LibG1' else 'Fq2'
         if fn == 'normalize':
             return f'@Sm9.Api.normalize {F} _'
+        if fn == 'new':
+            return f'@Sm9.G.new {F}'
+        if fn in ('zero', 'is_zero', 'add', 'sub', 'neg', 'mul'):
+            return f'@Sm9.G.{fn} {F} _'
+        if fn == 'one':
+            return f'@Sm9.G.one {F} _ _'
         camel = ''.join(w.capitalize() for w in fn.split('_'))
         return f'@Sm9.Api.{g}{camel}'
+    if ns == 'LibGt':
+        return {'one': '@Sm9.Fq12.one', 'pow': '@Sm9.Api.gtPow', 'inverse': '@Sm9.Fq12.inverse',
+                'to_slice': '@Sm9.Api.fq12ToSlice', 'mul': '(fun a b : Fq12 => a * b)'}.get(fn)
+    if ns in ('LibAffineG1', 'LibAffineG2'):
+        F = 'Fq' if ns == 'LibAffineG1' else 'Fq2'
+        return {'from_jacobian': f'@Sm9.G.to_affine {F} _'}.get(fn)
     if ns == 'LibG2Prepared':
         return {'from': '@Sm9.Api.prepare', 'pairing': '@Sm9.Api.preparedPairing'}.get(fn)
     if ns == 'Lib':
@@ -226,6 +240,22 @@ def main(gen_dir, exclude=()):
                     continue
                 L.append(f'theorem {nm} : @Sm9.Gen.{ns}.frob{k} = @Sm9.{ns}.frob{k} := by equiv_tac Sm9.Gen.{ns}.frob{k} Sm9.{ns}.frob{k}')
                 names.append(nm)
+            continue
+        if ns in ('Fq2', 'Fq4', 'Fq12') and fn == 'to_slice':
+            # the translation is Outcome-valued (`copy_from_slice` can panic); the model function is total
+            nm = f'{ns}_to_slice'
+            if nm in exclude:
+                L.append(f'-- {nm}: did not check on this run')
+                continue
+            low = ns.lower()
+            if ns == 'Fq12':
+                pf = 'sliceCopy_three _ _ _ _ 128 (List.length_replicate ..) (fq4ToSlice_length _) (fq4ToSlice_length _) (fq4ToSlice_length _)'
+            elif ns == 'Fq4':
+                pf = 'sliceCopy_two _ _ _ 64 (List.length_replicate ..) (Api.fq2ToSlice_length _) (Api.fq2ToSlice_length _)'
+            else:
+                pf = 'sliceCopy_two _ _ _ 32 (List.length_replicate ..) (Api.fqToSlice_length _) (Api.fqToSlice_length _)'
+            L.append(f'theorem {nm} (a : {ns}) : Sm9.Gen.{ns}.to_slice a = .ok (Sm9.Api.{low}ToSlice a) := by\n  unfold Sm9.Gen.{ns}.to_slice Sm9.Api.{low}ToSlice\n  exact {pf}')
+            names.append(nm)
             continue
         m = model_of(ns, fn)
         if m is None:
